@@ -11,8 +11,8 @@ import (
 
 // client is one raw AMQP connection of the harness.
 type client struct {
-	poisoned bool // hostile bytes were written: frame accounting is off
-	id           int // = the broker's connection id (connections are opened one at a time on a fresh broker)
+	poisoned     bool // hostile bytes were written: frame accounting is off
+	id           int  // = the broker's connection id (connections are opened one at a time on a fresh broker)
 	nc           net.Conn
 	mu           sync.Mutex
 	frames       []frame // received, not yet collected
